@@ -141,6 +141,7 @@ def check(ctx):
     options_probe(ctx)
     amplitude_probe(ctx)
     aliased_params_probe(ctx)
+    rejected_steps_probe(ctx)
 
 
 # ---------------------------------------------------------------- oracle
@@ -358,6 +359,40 @@ def amplitude_probe(ctx):
                 if not err <= 2e-5:
                     ctx.fail("oracle", "ivpgrad:%s:accuracy-vs-amplitude:%s" % (meth, nm), {"amplitude": amp, "atol": atol, "rtol": rtol, "what": nm},
                              err, "relative error <= 2e-5 with the caller's tolerances")
+                    break
+
+
+def rejected_steps_probe(ctx):
+    """requested times that force the adaptive integrators - forward AND backward - to reject trial steps after accepted ones (a very
+    short first interval followed by long ones): sensitivities stay within the requested accuracy (round-4 seed C08/10: the
+    derivative kept for the retry was a view of the stage buffer)"""
+    from xitorch.integrate import solve_ivp
+    ts = torch.tensor([0.0, 0.01, 1.0, 4.0, 10.0], dtype=DT)
+    W = torch.tensor([[0.0, 0.0], [1.0, -1.0], [0.5, 2.0], [-1.0, 0.3], [2.0, 1.0]], dtype=DT)
+    for meth in ("rk45", "rk23"):
+        for atol, rtol in ((1e-9, 1e-7),):
+            w = torch.tensor(3.0, dtype=DT, requires_grad=True)
+            c = torch.tensor(0.4, dtype=DT, requires_grad=True)
+            y0 = torch.tensor([1.0, 0.0], dtype=DT).requires_grad_()
+            # x'' = -w^2 x with a chirped forcing that only the parameter c sees: x_p = c sin(t^2 / 4)-type terms are avoided; plain
+            # oscillator plus a slow drift c t
+            f = lambda t, y, w_, c_: torch.stack([y[1] + c_, -w_ * w_ * y[0]])
+            with warnings.catch_warnings():
+                warnings.simplefilter("ignore")
+                yt = solve_ivp(f, ts, y0, params=(w, c), method=meth, atol=atol, rtol=rtol, bck_options=dict(method=meth, atol=atol, rtol=rtol))
+            got = torch.autograd.grad((yt * W).sum(), (w, c, y0))
+            wr, cr, y0r = w.detach().clone().requires_grad_(), c.detach().clone().requires_grad_(), y0.detach().clone().requires_grad_()
+            # closed form: x = A cos(w t) + B sin(w t), v + c = x', with x(0) = y0[0], v(0) = y0[1]
+            xt_ = y0r[0] * torch.cos(wr * ts) + (y0r[1] + cr) / wr * torch.sin(wr * ts)
+            vt_ = -y0r[0] * wr * torch.sin(wr * ts) + (y0r[1] + cr) * torch.cos(wr * ts) - cr
+            ex = torch.stack([xt_, vt_], dim=-1)
+            ref = torch.autograd.grad((ex * W).sum(), (wr, cr, y0r))
+            ctx.count(("ivpgrad-rejected-steps", meth), nontrivial=True)
+            for nm, x_, y_ in zip(("w", "c", "y0"), got, ref):
+                err = float((x_ - y_).abs().max() / (1 + y_.abs().max()))
+                if not err <= 3e3 * rtol:
+                    ctx.fail("oracle", "ivpgrad:%s:accuracy-after-rejected-steps:%s" % (meth, nm), {"ts": ts.tolist(), "atol": atol, "rtol": rtol}, err,
+                             "relative error <= %g" % (3e3 * rtol))
                     break
 
 
